@@ -70,7 +70,7 @@ RECURSIVE Sub(_, _, _, _)
 Sub(s, i, t, j) == IF i > Len(s) THEN TRUE ELSE IF j > Len(t) THEN FALSE
                    ELSE IF s[i] = t[j] THEN Sub(s, i + 1, t, j + 1) ELSE Sub(s, i, t, j + 1)
 IsSubseq(s, t) == Sub(s, 1, t, 1)
-NoDup(t) == \A i, j \in DOMAIN t : i # j => t[i] # t[j]
+NoDup(t) == Cardinality({t[i] : i \in DOMAIN t}) = Len(t)
 \* tokens appended to a cell are never lost, altered or reordered
 C20_OwnKept == \A c \in DOMAIN cells : IsSubseq(own[c], Flat(c)) /\ NoDup(Flat(c))
 \* an unmodified clone renders like its original
